@@ -44,3 +44,9 @@ Proof. reflexivity. Qed.
 (* C19: whether a call panicked is recorded per call *)
 Lemma panicked_flag_is_per_call : recover_flag_is_per_call = true.
 Proof. reflexivity. Qed.
+
+(* C13 / C14: the header and trailer maps of a response are written by the request
+   goroutine (response validation) and handed to user code by accessors that first
+   wait for close(responseReady): the hand-over is ordered after the writes *)
+Lemma response_accessors_wait : client_accessors_wait_for_response = true.
+Proof. reflexivity. Qed.
